@@ -818,5 +818,58 @@ func TestReplay_MassiveStages(t *testing.T) {
 			}
 		}
 	}
+	// every root a worker receives is processed: the multiset of root blocks of the massive text output equals the simple mode's
+	forest := "- a\n  - b\n- c\n- d\n  - e\n    - f\n"
+	var simpleOut bytes.Buffer
+	OutputFromMarkdown(&simpleOut, strings.NewReader(forest))
+	blocks := func(s string) []string {
+		var bs []string
+		for _, l := range strings.SplitAfter(s, "\n") {
+			if l == "" {
+				continue
+			}
+			if len(bs) == 0 || !(strings.HasPrefix(l, "├") || strings.HasPrefix(l, "└") || strings.HasPrefix(l, "│") || strings.HasPrefix(l, " ")) {
+				bs = append(bs, "")
+			}
+			bs[len(bs)-1] += l
+		}
+		sort.Strings(bs)
+		return bs
+	}
+	for i := 0; i < 5; i++ {
+		var m bytes.Buffer
+		if err := OutputFromMarkdown(&m, strings.NewReader(forest), WithMassive(ctx)); err != nil || strings.Join(blocks(m.String()), "|") != strings.Join(blocks(simpleOut.String()), "|") {
+			t.Fatalf("REPLAY-FAIL gtree.defaultSpreaderPipeline.worker/post#text input: document %q, massive text output: err=%v blocks=%q (simple mode: %q)", forest, err, blocks(m.String()), blocks(simpleOut.String()))
+		}
+	}
+	// leading blank lines are no error in the massive mode
+	for _, lead := range []string{"\n- a\n  - b\n", "  \n\n- a\n", "\r\n- a\n"} {
+		if err := OutputFromMarkdown(&bytes.Buffer{}, strings.NewReader(lead), WithMassive(ctx)); err != nil {
+			t.Fatalf("REPLAY-FAIL gtree.rootGeneratorPipeline.worker/post#genuine input: massive mode, document %q with leading blank lines: %v", lead, err)
+		}
+	}
+	// massive mkdir: a root that exists in the target is reported and nothing is created under it
+	{
+		jail := t.TempDir()
+		target := filepath.Join(jail, "target")
+		os.MkdirAll(filepath.Join(target, "proj"), 0o755)
+		before := replaySnapshot(jail)
+		err := MkdirFromMarkdown(strings.NewReader("- proj\n  - src\n"), WithTargetDir(target), WithMassive(ctx))
+		if !errors.Is(err, ErrExistPath) || strings.Join(replaySnapshot(jail), " ") != strings.Join(before, " ") {
+			t.Fatalf("REPLAY-FAIL gtree.defaultMkdirerPipeline.worker/post#fresh input: massive MkdirFromMarkdown, root proj exists in the target: err=%v, snapshot %v (before: %v)", err, replaySnapshot(jail), before)
+		}
+		// massive verify: a missing path and (strict) an extra entry are reported
+		if err := VerifyFromMarkdown(strings.NewReader("- proj\n  - src\n"), WithTargetDir(target), WithMassive(ctx)); err == nil {
+			t.Fatalf("REPLAY-FAIL gtree.defaultVerifierPipeline.worker/post#mismatch input: massive VerifyFromMarkdown, proj/src missing: returned nil")
+		}
+		os.MkdirAll(filepath.Join(target, "proj", "src"), 0o755)
+		os.MkdirAll(filepath.Join(target, "proj", "extra"), 0o755)
+		if err := VerifyFromMarkdown(strings.NewReader("- proj\n  - src\n"), WithTargetDir(target), WithMassive(ctx), WithStrictVerify()); err == nil {
+			t.Fatalf("REPLAY-FAIL gtree.defaultVerifierPipeline.worker/post#mismatch input: massive strict VerifyFromMarkdown, proj/extra is extra: returned nil")
+		}
+		if err := VerifyFromMarkdown(strings.NewReader("- proj\n  - src\n"), WithTargetDir(target), WithMassive(ctx)); err != nil {
+			t.Fatalf("REPLAY-FAIL gtree.defaultVerifierPipeline.worker/post#mismatch input: massive non-strict VerifyFromMarkdown, everything present: %v", err)
+		}
+	}
 	t.Logf("REPLAY-OK massive stages")
 }
